@@ -30,10 +30,17 @@ def Tracks (C : Cfg) (s : LState) (u : List B) : Prop :=
 /-- every entry is a live state of its lexeme's certificate -/
 def AllLive (C : Cfg) (s : LState) : Prop := ∀ e ∈ s, liveAt (C.lx e.1).dfa e.2 = true
 
+def lastRow (rows : List (List Ey.Item)) : List Ey.Item := rows.getD (rows.length - 1) []
+
+/-- the lexemes the lexer was restarted on are lexemes the current row asks for, or the skip lexeme -/
+def AlOK (C : Cfg) (rows : List (List Ey.Item)) (al : List Nat) : Prop :=
+  ∀ l ∈ al, l ∈ Ey.allowedLexemes C.g (lastRow rows) ∨ some l = C.skipId
+
 /-- the invariant: the bytes read so far are the chunks followed by the open lexeme's bytes -/
 def Inv (C : Cfg) (st : St) (w : List B) : Prop :=
   ∃ cs u, w = bytesOf cs ++ u ∧ (∀ c ∈ cs, ChunkOK C c) ∧ st.lexs = nonSkipSets C cs ∧
-    st.rows = Ey.runRows C.g st.lexs ∧ Tracks C st.ls u ∧ (st.pending = false → u = []) ∧ AllLive C st.ls
+    st.rows = Ey.runRows C.g st.lexs ∧ Tracks C st.ls u ∧ (st.pending = false → u = []) ∧ AllLive C st.ls ∧
+    AlOK C st.rows st.al ∧ (∀ e ∈ st.ls, e.1 ∈ st.al)
 
 theorem tracks_start (C : Cfg) (al : List Nat) : Tracks C (start C al) [] := by
   intro e he
@@ -150,6 +157,105 @@ theorem runRows_snoc (g : Ey.CG) (lexs : List (List Nat)) (S : List Nat) :
   rw [List.foldl_append]
   rfl
 
+theorem mem_insertNat (x y : Nat) (l : List Nat) (h : x ∈ insertNat y l) : x = y ∨ x ∈ l := by
+  induction l with
+  | nil => simp [insertNat] at h; exact Or.inl h
+  | cons z zs ih =>
+    unfold insertNat at h
+    split at h
+    · simp only [List.mem_cons] at h ⊢
+      rcases h with h | h | h
+      · exact Or.inl h
+      · exact Or.inr (Or.inl h)
+      · exact Or.inr (Or.inr h)
+    · split at h
+      · exact Or.inr h
+      · simp only [List.mem_cons] at h ⊢
+        rcases h with h | h
+        · exact Or.inr (Or.inl h)
+        · rcases ih h with h | h
+          · exact Or.inl h
+          · exact Or.inr (Or.inr h)
+
+theorem mem_canon (x : Nat) (l : List Nat) (h : x ∈ canon l) : x ∈ l := by
+  unfold canon at h
+  have key : ∀ (l acc : List Nat), x ∈ l.foldl (fun acc y => insertNat y acc) acc → x ∈ acc ∨ x ∈ l := by
+    intro l
+    induction l with
+    | nil => intro acc h; exact Or.inl h
+    | cons y ys ih =>
+      intro acc h
+      simp only [List.foldl_cons] at h
+      rcases ih _ h with h | h
+      · rcases mem_insertNat x y acc h with h | h
+        · exact Or.inr (by simp [h])
+        · exact Or.inl h
+      · exact Or.inr (by simp [h])
+  rcases key l [] h with h | h
+  · cases h
+  · exact h
+
+theorem possible_start_sub (C : Cfg) (al : List Nat) (l : Nat) (h : l ∈ possible (start C al)) : l ∈ al := by
+  unfold possible start at h
+  simp only [List.mem_map, List.mem_filterMap] at h
+  obtain ⟨e, ⟨i, hi, he⟩, rfl⟩ := h
+  split at he
+  · cases he; exact mem_canon _ _ hi
+  · cases he
+
+theorem start_fst (C : Cfg) (al : List Nat) (e : Nat × Nat) (h : e ∈ start C al) : e.1 ∈ possible (start C al) := by
+  unfold possible
+  exact List.mem_map.mpr ⟨e, h, rfl⟩
+
+theorem step_fst (C : Cfg) (s : LState) (b : B) (e : Nat × Nat) (h : e ∈ step C s b) : ∃ e0 ∈ s, e0.1 = e.1 := by
+  unfold step at h
+  simp only [List.mem_filterMap] at h
+  obtain ⟨e0, he0, hi⟩ := h
+  split at hi
+  · cases hi; exact ⟨e0, he0, rfl⟩
+  · cases hi
+
+theorem allowedFor_ok (C : Cfg) (row : List Ey.Item) (ws : Bool) (l : Nat) (h : l ∈ allowedFor C row ws) :
+    l ∈ Ey.allowedLexemes C.g row ∨ some l = C.skipId := by
+  unfold allowedFor at h
+  simp only [List.mem_append] at h
+  rcases h with h | h
+  · exact Or.inl h
+  · split at h
+    · right
+      cases hs : C.skipId with
+      | none => rw [hs] at h; cases h
+      | some k => rw [hs] at h; simp only [Option.toList_some, List.mem_singleton] at h; rw [h]
+    · cases h
+
+theorem lastRow_snoc (rows : List (List Ey.Item)) (row : List Ey.Item) : lastRow (rows ++ [row]) = row := by
+  unfold lastRow
+  simp
+
+theorem scanSet_al (C : Cfg) (st : St) (S : List Nat) (hal : AlOK C st.rows st.al)
+    (lexs : List (List Nat)) (rows : List (List Ey.Item)) (al : List Nat)
+    (h : scanSet C st S = some (lexs, rows, al)) : AlOK C rows al := by
+  unfold scanSet at h
+  split at h
+  · simp only [Option.some.injEq, Prod.mk.injEq] at h
+    obtain ⟨_, h2, h3⟩ := h
+    subst h2
+    intro l hl
+    apply hal l
+    rw [← h3] at hl
+    split at hl
+    · exact (List.mem_filter.mp hl).1
+    · exact hl
+  · simp only at h
+    split at h
+    · cases h
+    · simp only [Option.some.injEq, Prod.mk.injEq] at h
+      obtain ⟨_, h2, h3⟩ := h
+      subst h2 h3
+      intro l hl
+      rw [lastRow_snoc]
+      exact allowedFor_ok C _ true l hl
+
 theorem scanSet_facts (C : Cfg) (st : St) (S : List Nat) (u : List B) (cs : List Chunk)
     (hlexs : st.lexs = nonSkipSets C cs) (hrows : st.rows = Ey.runRows C.g st.lexs)
     (lexs : List (List Nat)) (rows : List (List Ey.Item)) (al : List Nat)
@@ -179,13 +285,13 @@ the next lexeme -/
 theorem advance_inv (C : Cfg) (hw : C.wf = true) (fuel : Nat) :
     ∀ (st : St) (S : List Nat) (tb : Option B) (w u : List B) (cs : List Chunk) (st' : St),
       w = bytesOf cs ++ u → (∀ c ∈ cs, ChunkOK C c) → st.lexs = nonSkipSets C cs →
-      st.rows = Ey.runRows C.g st.lexs → (∀ l ∈ S, Rx.lang (C.lx l).rx u) →
+      st.rows = Ey.runRows C.g st.lexs → (∀ l ∈ S, Rx.lang (C.lx l).rx u) → AlOK C st.rows st.al →
       advance C st S tb fuel = some st' →
       Inv C st' (w ++ tb.toList) := by
   induction fuel with
-  | zero => intro st S tb w u cs st' _ _ _ _ _ h; simp [advance] at h
+  | zero => intro st S tb w u cs st' _ _ _ _ _ _ h; simp [advance] at h
   | succ fuel ih =>
-    intro st S tb w u cs st' hwd hcs hlexs hrows hS h
+    intro st S tb w u cs st' hwd hcs hlexs hrows hS hal h
     unfold advance at h
     -- the chunk that is closed here
     have hcs' : ∀ x ∈ cs ++ [(⟨S, u⟩ : Chunk)], ChunkOK C x := by
@@ -200,12 +306,14 @@ theorem advance_inv (C : Cfg) (hw : C.wf = true) (fuel : Nat) :
       obtain ⟨lexs, rows, al⟩ := trip
       rw [hnext] at h
       have hfacts := scanSet_facts C st S u cs hlexs hrows lexs rows al hnext
+      have hal0 := scanSet_al C st S hal lexs rows al hnext
+      have hal' : AlOK C rows (possible (start C al)) := fun l hl => hal0 l (possible_start_sub C al l hl)
       simp only at h
       cases tb with
       | none =>
         simp only [Option.some.injEq] at h
         subst h
-        refine ⟨cs ++ [⟨S, u⟩], [], ?_, hcs', hfacts.1, hfacts.2, tracks_start C al, fun _ => rfl, live_start C al⟩
+        refine ⟨cs ++ [⟨S, u⟩], [], ?_, hcs', hfacts.1, hfacts.2, tracks_start C al, fun _ => rfl, live_start C al, hal', start_fst C al⟩
         simp [hbytes]
       | some b =>
         simp only at h
@@ -217,23 +325,33 @@ theorem advance_inv (C : Cfg) (hw : C.wf = true) (fuel : Nat) :
             have := ih { lexs := lexs, rows := rows, al := possible (start C al), ls := step C (start C al) b, pending := true }
               (accepting C (step C (start C al) b)) none (w ++ [b]) [b] (cs ++ [⟨S, u⟩]) st'
               (by rw [hbytes]) hcs' hfacts.1 hfacts.2
-              (fun l hl => accepting_lang C hw _ _ htr l hl) h
+              (fun l hl => accepting_lang C hw _ _ htr l hl) hal' h
             simpa using this
           · simp only [Option.some.injEq] at h
             subst h
-            refine ⟨cs ++ [⟨S, u⟩], [b], ?_, hcs', hfacts.1, hfacts.2, ?_, fun hp => by simp at hp, live_step C _ b⟩
+            refine ⟨cs ++ [⟨S, u⟩], [b], ?_, hcs', hfacts.1, hfacts.2, ?_, fun hp => by simp at hp, live_step C _ b, hal', ?_⟩
             · simp [hbytes]
             · exact tracks_step C _ [] b (tracks_start C al)
+            · intro e he
+              obtain ⟨e0, he0, hfst⟩ := step_fst C _ b e he
+              rw [← hfst]
+              exact start_fst C al e0 he0
 
 theorem init_inv (C : Cfg) : Inv C (init C) [] := by
-  refine ⟨[], [], by simp [bytesOf], by simp, by simp [init, nonSkipSets], ?_, ?_, fun _ => rfl, ?_⟩
+  refine ⟨[], [], by simp [bytesOf], by simp, by simp [init, nonSkipSets], ?_, ?_, fun _ => rfl, ?_, ?_, ?_⟩
   · simp [init, Ey.runRows]
   · exact tracks_start C _
   · exact live_start C _
+  · intro l hl
+    have h1 := possible_start_sub C _ l hl
+    have : lastRow (init C).rows = Ey.initRow C.g := by simp [init, lastRow]
+    rw [this]
+    exact allowedFor_ok C _ _ l h1
+  · exact start_fst C _
 
 theorem push_inv (C : Cfg) (hw : C.wf = true) (st st' : St) (w : List B) (b : B)
     (hi : Inv C st w) (h : push C st b = some st') : Inv C st' (w ++ [b]) := by
-  obtain ⟨cs, u, hwd, hcs, hlexs, hrows, htr, hpend, _⟩ := hi
+  obtain ⟨cs, u, hwd, hcs, hlexs, hrows, htr, hpend, _, hal, hsub⟩ := hi
   unfold push at h
   simp only at h
   split at h
@@ -242,16 +360,20 @@ theorem push_inv (C : Cfg) (hw : C.wf = true) (st st' : St) (w : List B) (b : B)
     · split at h
       · cases h
       · exact advance_inv C hw 3 st _ (some b) w u cs st' hwd hcs hlexs hrows
-          (fun l hl => accepting_lang C hw _ _ htr l hl) h
+          (fun l hl => accepting_lang C hw _ _ htr l hl) hal h
   · split at h
     · have htr' := tracks_step C _ u b htr
       have := advance_inv C hw 3 { st with ls := step C st.ls b } _ none (w ++ [b]) (u ++ [b]) cs st'
         (by rw [hwd]; simp) hcs hlexs hrows
-        (fun l hl => accepting_lang C hw _ _ htr' l (lowest_sub_accepting C _ l hl)) h
+        (fun l hl => accepting_lang C hw _ _ htr' l (lowest_sub_accepting C _ l hl)) hal h
       simpa using this
     · simp only [Option.some.injEq] at h
       subst h
-      exact ⟨cs, u ++ [b], by rw [hwd]; simp, hcs, hlexs, hrows, tracks_step C _ u b htr, fun hp => by simp at hp, live_step C _ b⟩
+      refine ⟨cs, u ++ [b], by rw [hwd]; simp, hcs, hlexs, hrows, tracks_step C _ u b htr, fun hp => by simp at hp, live_step C _ b, hal, ?_⟩
+      intro e he
+      obtain ⟨e0, he0, hfst⟩ := step_fst C _ b e he
+      rw [← hfst]
+      exact hsub e0 he0
 
 theorem run_inv (C : Cfg) (hw : C.wf = true) (v : List B) :
     ∀ (st st' : St) (w : List B), Inv C st w → run C st v = some st' → Inv C st' (w ++ v) := by
@@ -270,7 +392,7 @@ theorem flush_inv (C : Cfg) (hw : C.wf = true) (st st' : St) (w : List B)
     (hi : Inv C st w) (h : flush C st = some st') :
     ∃ cs, w = bytesOf cs ∧ (∀ c ∈ cs, ChunkOK C c) ∧ st'.lexs = nonSkipSets C cs ∧
       st'.rows = Ey.runRows C.g st'.lexs := by
-  obtain ⟨cs, u, hwd, hcs, hlexs, hrows, htr, hpend, _⟩ := hi
+  obtain ⟨cs, u, hwd, hcs, hlexs, hrows, htr, hpend, _, hal, _⟩ := hi
   unfold flush at h
   split at h
   · rename_i hp
@@ -283,9 +405,9 @@ theorem flush_inv (C : Cfg) (hw : C.wf = true) (st st' : St) (w : List B)
   · simp only at h
     split at h
     · cases h
-    · obtain ⟨cs', u', hwd', hcs', hlexs', hrows', _, hpend', _⟩ :=
+    · obtain ⟨cs', u', hwd', hcs', hlexs', hrows', _, hpend', _, _, _⟩ :=
         advance_inv C hw 3 st _ none w u cs st' hwd hcs hlexs hrows
-          (fun l hl => accepting_lang C hw _ _ htr l hl) h
+          (fun l hl => accepting_lang C hw _ _ htr l hl) hal h
       -- `advance` without a transition byte leaves no open lexeme
       have hpf : st'.pending = false := by
         -- read off the definition: the only `some` results with `tb = none` have `pending := false`
@@ -317,8 +439,38 @@ theorem state_viable (C : Cfg) (hw : C.wf = true) (w : List B) (st : St)
     ∃ u, u <:+ w ∧ ∀ e ∈ st.ls, ∃ v, Rx.lang (C.lx e.1).rx (u ++ v) := by
   have hi := run_inv C hw w (init C) st [] (init_inv C) hrun
   simp only [List.nil_append] at hi
-  obtain ⟨cs, u, hwd, _, _, _, htr, _, hlive⟩ := hi
+  obtain ⟨cs, u, hwd, _, _, _, htr, _, hlive, _, _⟩ := hi
   refine ⟨u, ⟨bytesOf cs, hwd.symm⟩, ?_⟩
+  intro e he
+  by_cases hlt : e.1 < C.lexemes.size
+  · have hc := lex_check C hw e.1 hlt
+    apply (Dfa.dfa_decides _ _ hc u).2.mp
+    unfold Dfa.viable
+    rw [← htr e he]
+    exact hlive e he
+  · have := hlive e he
+    rw [lx_default C e.1 hlt, live_default] at this
+    cases this
+
+/-- in every reachable state, each lexer entry is a lexeme the current row asks for (or the skip lexeme) -/
+theorem state_entries_allowed (C : Cfg) (hw : C.wf = true) (w : List B) (st : St)
+    (hrun : run C (init C) w = some st) :
+    st.rows = Ey.runRows C.g st.lexs ∧
+      ∀ e ∈ st.ls, e.1 ∈ Ey.allowedLexemes C.g (lastRow st.rows) ∨ some e.1 = C.skipId := by
+  have hi := run_inv C hw w (init C) st [] (init_inv C) hrun
+  obtain ⟨_, _, _, _, _, hrows, _, _, _, hal, hsub⟩ := hi
+  exact ⟨hrows, fun e he => hal e.1 (hsub e he)⟩
+
+/-- both facts about one reachable state, with the same open-lexeme bytes `u` -/
+theorem state_summary (C : Cfg) (hw : C.wf = true) (w : List B) (st : St)
+    (hrun : run C (init C) w = some st) :
+    ∃ u, u <:+ w ∧ (∀ e ∈ st.ls, ∃ v, Rx.lang (C.lx e.1).rx (u ++ v)) ∧
+      st.rows = Ey.runRows C.g st.lexs ∧
+      ∀ e ∈ st.ls, e.1 ∈ Ey.allowedLexemes C.g (lastRow st.rows) ∨ some e.1 = C.skipId := by
+  have hi := run_inv C hw w (init C) st [] (init_inv C) hrun
+  simp only [List.nil_append] at hi
+  obtain ⟨cs, u, hwd, _, _, hrows, htr, _, hlive, hal, hsub⟩ := hi
+  refine ⟨u, ⟨bytesOf cs, hwd.symm⟩, ?_, hrows, fun e he => hal e.1 (hsub e he)⟩
   intro e he
   by_cases hlt : e.1 < C.lexemes.size
   · have hc := lex_check C hw e.1 hlt
